@@ -82,6 +82,9 @@ type DB interface {
 
 	ReadCommitOffset() (int64, error)
 
+	// Flush makes everything that was applied so far durable
+	Flush() error
+
 	ReadNextNotifications(ctx context.Context, startOffset int64) ([]*proto.NotificationBatch, error)
 	GetSequenceUpdates(prefixKey string) (SequenceWaiter, error)
 
@@ -465,6 +468,10 @@ func (d *db) UpdateTerm(newTerm int64, options TermOptions) error {
 
 	// Since the term change is not stored in the WAL, we must force
 	// the database to flush, in order to ensure the term change is durable
+	return d.kv.Flush()
+}
+
+func (d *db) Flush() error {
 	return d.kv.Flush()
 }
 
